@@ -125,10 +125,10 @@ macro_rules! dump_units {
             .map(|u| {
                 let mut m = json!({
                     "dbg": format!("{:?}", u),
-                    "name": u.name(),
-                    "symbol": u.symbol(),
-                    "prefix": u.si_prefix().map(|p| format!("{:?}", p)),
-                    "prefix_exp": u.si_prefix().map(|p| p.exp()),
+                    "name": Unit::name(&u),
+                    "symbol": Unit::symbol(&u),
+                    "prefix": Unit::si_prefix(&u).map(|p| format!("{:?}", p)),
+                    "prefix_exp": Unit::si_prefix(&u).map(|p| p.exp()),
                     "as_qty": qj!(u.as_qty()),
                     "disp": format!("{}", u),
                 });
@@ -153,8 +153,15 @@ macro_rules! ref_type {
             match op {
                 "dump" => {
                     let (us, us2) = dump_units!($Q, true, |u: &<$Q as Quantity>::UnitType, m: &mut Value| {
-                        m["scale"] = json!(enc(u.scale()));
-                        m["is_ref"] = json!(u.is_ref_unit());
+                        // the trait's answers (what generic library code sees) and, separately, what method-call syntax
+                        // on the concrete unit type resolves to (an inherent method would shadow the trait's)
+                        m["scale"] = json!(enc(LinearScaledUnit::scale(u)));
+                        m["is_ref"] = json!(LinearScaledUnit::is_ref_unit(u));
+                        m["m_scale"] = json!(enc(u.scale()));
+                        m["m_is_ref"] = json!(u.is_ref_unit());
+                        m["m_name"] = json!(u.name());
+                        m["m_symbol"] = json!(u.symbol());
+                        m["m_prefix"] = json!(u.si_prefix().map(|p| format!("{:?}", p)));
                     });
                     json!({
                         "kind": "ref",
